@@ -237,3 +237,9 @@ Definition eval_op (s : stack) (o : hop) : hres :=
   end.
 
 Definition run_hist (h : list (stack * hop)) : list hres := map (fun so => eval_op (fst so) (snd so)) h.
+
+(* KEPT ACCESSORS.  `f = stack.getitem_x` (or a ModeWrapper, which fetches its loaders once) may be obtained when the
+   stack is `fetched` and called when a subset layer below has been given another index map, i.e. when the stack is `cur`:
+   KDSubset's accessor is partial(self._call_getitem, func) -- it keeps the layer OBJECT and reads self.indices when it
+   is called -- so the call is answered on the stack as it is NOW; the stack at fetch time is not an input. *)
+Definition kept_eval (fetched cur : stack) (o : hop) : hres := eval_op cur o.
